@@ -13,6 +13,7 @@ from pandapipes.properties import fluids as FL, properties_toolbox as PT
 from pandapipes.std_types.std_type_class import PumpStdType
 
 ID = "C19"
+CASE_WEIGHT = 2   # relative cost of one case (pool sizing)
 LEVEL = "exploration"
 RULE = ("all library fluids (liquids and gases) x {density, viscosity, heat_capacity} at every tabulated x, every midpoint "
         "and two points beyond each end x query shape {float, 0-d, 1-d, 2-d array, Series, list}; compressibility / derivative "
